@@ -419,3 +419,49 @@ PLANS["C17"] = {
                     "writable-segment diff covers globals written from assembly)",
                     "schedules are sampled by the OS scheduler plus injected yields, not enumerated"],
 }
+
+
+def _ct_post(agg, res, label, synthetic):
+    import re
+    blocks = re.split(r"\n==\d+== \n", res["err"])
+    lib = [b for b in blocks if ("Conditional jump" in b or "Use of uninit" in b) and "control_" not in b
+           and "des_key_schedule" not in b]
+    ctl = [b for b in blocks if "control_" in b]
+    agg.counts["memcheck_control_reports"] = agg.counts.get("memcheck_control_reports", 0) + len(ctl)
+    agg.counts["memcheck_reports_in_job_processing"] = agg.counts.get("memcheck_reports_in_job_processing", 0) + len(lib)
+    for b in lib[:3]:
+        if len(agg.notes) < 40:
+            agg.notes.append({"ev": "note", "what": "memcheck-report", "detail": b.strip()[:900]})
+
+
+def _c19(tier, seed):
+    return [{"engine": "ct", "args": ["--valgrind", "--no-selfcheck"], "cases": 32 if tier == "quick" else 600, "shards": N,
+             "prefix": ["valgrind", "-q", "--tool=memcheck", "--error-limit=no", "--num-callers=12"],
+             "timeout": 3000 if tier == "quick" else 14000, "post": _ct_post}]
+
+
+PLANS["C19"] = {
+    "level": "exploration",
+    "runs": _c19,
+    "cov_class": "C19",
+    "rule": ("cases = batches of 1, 3..7 or 9..19 jobs (flush path, partially and fully occupied lanes) of DES-CBC, "
+             "3DES-CBC, DOCSIS-DES (also chained with HMAC-SHA1), KASUMI-F8, KASUMI-F9, SNOW3G-UEA2, SNOW3G-UIA2 (also "
+             "chained), both directions, 21 lengths 1..1000, on the variants valgrind can execute (SSE-t1, AVX2-t1), "
+             "plus 13 direct KASUMI/SNOW3G 1/2/4/8/N-buffer functions; every key object handed to the library is "
+             "marked undefined (secret) in memcheck before submission while IVs, lengths and pointers stay defined; "
+             "the memcheck error counter is sampled around the library calls: any 'conditional jump depends on' / "
+             "'use of uninitialised value' (address) report is a violation; outputs are declassified and compared with "
+             "the reference afterwards. Start-up controls: a table lookup indexed by a secret byte and a branch on a "
+             "secret bit in harness code must be reported, a secret-independent XOR must not. distinct = distinct "
+             "(variant, algorithm, direction, batch bucket) + (variant, direct function, length class); non-trivial "
+             "= all (every case taints at least one key schedule)."),
+    "floors": {"quick": {"ct_controls_ok": 16, "ct_jobs_tainted": 3000, "ct_direct_calls_tainted": 50,
+                         "memcheck_control_reports": 16}},
+    "assumptions": ["memcheck's definedness propagation is bit-precise enough: it over-approximates for a few "
+                    "instructions (would show as false alarms, none seen) and does not model timing differences of "
+                    "individual instructions",
+                    "only SSE-t1 and AVX2-t1 run under valgrind 3.19 (no AVX512/VAES/GFNI/SHA-NI in its CPU model)",
+                    "key set-up functions are outside the property ('while processing a job'); observed there: "
+                    "des_key_schedule indexes the byte-reflection table by key bytes (recorded in evidence extra, "
+                    "DESIGN.md)"],
+}
